@@ -38,7 +38,7 @@ def specs(tier):
                                     out.append({"kind": kind, "is_async": is_async, "dbc": dbc, "levels": levels,
                                                 "style": (("def", "lambda", "adef")[idx % 3] if is_async else ("def", "lambda")[idx % 2]),
                                                 "err": ("fac", "default", "cls", "inst")[(idx // 2) % 4] if post_old == "all" else "fac",
-                                                "cap_alias": cap_alias, "post_old": post_old})
+                                                "cap_alias": cap_alias, "post_old": post_old, "err_base": idx % 5 == 3})
     return out
 
 
